@@ -57,11 +57,11 @@ Proof.
   induction a as [|x a IH]; intros b H1 H2.
   - destruct b; [reflexivity|discriminate].
   - destruct b as [|y b]; [discriminate|]. cbn [bytes_leb] in H1, H2.
-    destruct (x <? y) eqn:E1.
-    + assert (y <? x = false) by (apply N.ltb_ge; apply N.ltb_lt in E1; lia). rewrite H in H2.
-      rewrite E1 in H2. discriminate.
-    + destruct (y <? x) eqn:E2; [discriminate|].
-      apply N.ltb_ge in E1, E2. assert (x = y) by lia. subst. f_equal. now apply IH.
+    destruct (x <? y) eqn:E1; destruct (y <? x) eqn:E2.
+    + apply N.ltb_lt in E1, E2. lia.
+    + discriminate.
+    + discriminate.
+    + apply N.ltb_ge in E1, E2. assert (x = y) by lia. subst. f_equal. now apply IH.
 Qed.
 
 Lemma bytes_leb_trans : forall a b c, bytes_leb a b = true -> bytes_leb b c = true -> bytes_leb a c = true.
